@@ -61,7 +61,7 @@ def build(repo=None):
         own = sorted({b.name for b in mc.body if isinstance(b, (ast.FunctionDef, ast.AsyncFunctionDef))} | {t.id for b in mc.body if isinstance(b, ast.Assign) for t in b.targets if isinstance(t, ast.Name)})
         bases = [ast.unparse(b) for b in mc.bases]
         ob(f"C15:union:{mname}-keeps-type's-identity-equality-and-hash(typing.Union-and-cache-keys-never-merge-distinct-annotations)",
-           bases == ["type"] and not ({"__eq__", "__ne__", "__hash__"} & set(own)) and not mc.keywords, ["C15", "C12", "C20"], bases=bases, defines=",".join(own))
+           bases == ["type"] and not ({"__eq__", "__ne__", "__hash__"} & set(own)) and not mc.keywords, ["C15", "C12", "C20", "C03"], bases=bases, defines=",".join(own))
 
     # ================================================================== C03: tables
     class Cat:
